@@ -12,6 +12,7 @@
 import TwModel
 import TwSpec
 import TwProofs.Lemmas.Utf8Valid
+import TwProofs.Lemmas.TrimSplit
 
 namespace Tw.C11
 open Tw
@@ -182,5 +183,31 @@ theorem unknown_name_is_none : callBuiltin (.nil) (b "len") [] = none ∧ boolBu
 
 example : (match evaluateStringPure [] (b "{{ \"żółw\".len() }}|{{ \"żółw\".reverse() }}|{{ \"żółw\".truncate(2) }}|{{ \"éa\".capitalize() }}|{{ [1,2,3,4].slice(3, 1) }}|{{ [1,2,3].slice(-5, 99) }}") [] with
     | .ok out => out == b "4|włóż|żó...|Éa||1, 2, 3" | _ => false) = true := by decide +kernel
+
+/-! ### `trim*` and `split` -/
+
+/-- the characters of a string partition it (what `split("")` returns, concatenated, is the string) -/
+theorem characters_partition (s : Bytes) : (runeChunks s).flatMap (·.2) = s := runeChunks_flatten s.length s (Nat.le_refl _)
+
+/-- `trimLeft` removes a prefix, `trimRight` a suffix, whatever the cut set: nothing inside the string changes -/
+theorem trimLeft_returns_a_suffix (s cut : Bytes) : ∃ p, s = p ++ trimLeftSet s cut := trimLeft_suffix s cut
+theorem trimRight_returns_a_prefix (s cut : Bytes) : ∃ q, s = trimRightSet s cut ++ q := trimRight_prefix s cut
+
+/-- `trim`, `trimLeft`, `trimRight` cut at character boundaries: valid UTF-8 stays valid UTF-8, for every cut set -/
+theorem trimLeft_keeps_utf8 (s cut : Bytes) (h : validUtf8 s = true) : validUtf8 (trimLeftSet s cut) = true := trimLeft_valid s cut h
+theorem trimRight_keeps_utf8 (s cut : Bytes) (h : validUtf8 s = true) : validUtf8 (trimRightSet s cut) = true := trimRight_valid s cut h
+theorem trim_keeps_utf8 (s cut : Bytes) (h : validUtf8 s = true) : validUtf8 (trimRightSet (trimLeftSet s cut) cut) = true :=
+  trim_valid s cut h
+
+/-- **`split` then `join` is the identity**: for every receiver and every separator (the empty one
+    included, which splits into characters), joining the parts with the separator gives the receiver back -/
+theorem split_then_join (s sep : Bytes) : joinBytes sep (splitBytes s sep) = s := split_join s sep
+
+/-- array `contains` is membership up to the structural equality `Val.beq` -/
+theorem array_contains_is_membership (xs : List Val) (t : Val) (rest : List Val) :
+    arrBuiltin (b "contains") xs (t :: rest) = some (.ok (.bool (xs.any fun x => Val.beq x t))) := by
+  simp [arrBuiltin, b, utf8Bytes]
+
+example : splitBytes (b "a,b,,c") (b ",") = [b "a", b "b", [], b "c"] ∧ trimRightSet (trimLeftSet (b "  é x ") (b " ")) (b " ") = b "é x" := by decide
 
 end Tw.C11
